@@ -33,6 +33,7 @@ type EntryResult struct {
 	Assumptions    []string              `json:"assumptions"`
 	Samples        []string              `json:"samples"`
 	Witness        map[string]string     `json:"witness_inputs"`
+	Witnesses      []WitnessTrace        `json:"witness_traces,omitempty"`
 	Observed       []string              `json:"observed,omitempty"`
 	MaxAlloc       int64                 `json:"max_alloc"`
 	CrossChecked   int                   `json:"cross_checked"`
@@ -95,7 +96,7 @@ func RunEntry(L *Loaded, entry string, opts RunOpts) (*EntryResult, error) {
 		Discharged: e.Discharged, Trivial: e.Trivial, Forks: e.Forks, Merges: e.Merges, Queries: e.solver.Queries,
 		SolverSec: e.solver.Time.Seconds(), WallSec: time.Since(t0).Seconds(), Violations: e.Violations,
 		Known: e.KnownHits, Inconclusive: dedupe(e.Inconclusive), ReachHit: e.ReachHit, Bounds: e.Bounds,
-		Assumptions: e.Assumptions, Samples: e.Samples, Witness: e.WitnessInputs, Observed: e.Observed,
+		Assumptions: e.Assumptions, Samples: e.Samples, Witness: e.WitnessInputs, Witnesses: e.Witnesses, Observed: e.Observed,
 		MaxAlloc: e.MaxAlloc, Completed: e.Completed, ModelHits: e.ModelHits, CrossChecked: e.CrossChecked, CrossDisagree: e.CrossDisagree, CrossDismissed: e.CrossDismissed, CrossUnknown: e.CrossUnknown, CrossAbandoned: e.CrossAbandoned, InitDiag: e.InitDiag}
 	if intMode {
 		res.Mode = "int"
